@@ -16,6 +16,8 @@ def modules():
     import pytezos.michelson.instructions.boolean as i_bo
     import pytezos.michelson.instructions.compare as i_cmp
     import pytezos.michelson.instructions.control as i_ctl
+    import pytezos.michelson.instructions.crypto as i_cry
+    import pytezos.michelson.instructions.tezos as i_tez
     import pytezos.michelson.instructions.generic as i_gen
     import pytezos.michelson.instructions.stack as i_stk
     import pytezos.michelson.instructions.struct as i_str
@@ -32,7 +34,7 @@ def modules():
     import pytezos.michelson.types.sum as t_sum
     import pytezos.michelson.types.ticket as t_tic
 
-    return [i_adt, i_ar, i_bo, i_cmp, i_ctl, i_gen, i_stk, i_str, i_tic, mm, t_base, t_core, t_dom, t_list, t_map, t_opt,
+    return [i_adt, i_ar, i_bo, i_cmp, i_ctl, i_cry, i_tez, i_gen, i_stk, i_str, i_tic, mm, t_base, t_core, t_dom, t_list, t_map, t_opt,
             t_pair, t_set, t_sum, t_tic]
 
 
